@@ -94,3 +94,14 @@ From NP Require Import Deriv.
 Definition zderivative o (p : zparr) (vs : seq nat) : res zparr := @derivative ZR o p vs.
 Definition zgradient o (p : zparr) : res zparr := @gradient ZR o p.
 Definition zhessian o (p : zparr) : res zparr := @hessian ZR o p.
+
+(* ---- evaluation (C02) ---------------------------------------------------------------------- *)
+From NP Require Import Eval.
+Definition ZNum (s : seq nat) (xs : seq Z) : carg ZR := @ANum ZR s xs.
+Definition ZPoly (p : zparr) : carg ZR := @APoly ZR p.
+Definition zbind (ns : seq nat) (args : seq (option (carg ZR))) (kw : seq (nat * carg ZR)) := @bind ZR ns args kw.
+Definition zcall_numeric (p : zparr) (args : seq (option (carg ZR))) (kw : seq (nat * carg ZR)) : res (seq nat * seq Z) :=
+  rbind (zbind (names p) args kw) (fun b =>
+    if all isSome b then @call_numeric ZR p (pmap id b) else Err OtherError).
+Definition zcall_poly o (p : zparr) (args : seq (option (carg ZR))) (kw : seq (nat * carg ZR)) : res zparr :=
+  rbind (zbind (names p) args kw) (@call_poly ZR o p).
